@@ -139,14 +139,30 @@ def audit(prop, theorems):
     return res, out
 
 
+def gen_source():
+    """TRANSLATOR step: regenerate lean/Mb2/Gen/Source.lean (struct layouts, IDs, BASE_SIZE constants, accessor -> field) from
+    the Rust sources of /repo's working tree. The file is only rewritten when its content changes."""
+    sys.path.insert(0, os.path.join(VERIF, "tools"))
+    import gen_source as _gs
+    with Lock("lake"):
+        rep = _gs.main(os.path.join(LEAN, "Mb2", "Gen", "Source.lean"))
+    return {"facts_derived": rep["some"], "facts_not_derivable": len(rep["none"])}
+
+
 def proof_stage(prop, tier):
-    """Build the property module and the driver, audit axioms, compare statement hashes. Returns dict."""
+    """Regenerate the source-derived facts, build the driver and the property module, audit axioms, compare statement
+    hashes. Returns dict."""
     t0 = time.time()
     idx = load_index()
     entry = idx[prop]
     theorems = entry["theorems"]
+    try:
+        src = gen_source()
+    except Exception as e:       # a translator crash must not hide the rest of the check
+        src = {"error": repr(e)}
+    lake_build(["mb2drv"])       # the driver first: it is needed to search for a failing input even when a theorem breaks
     ok, out = lake_build(["Mb2.Props." + prop, "mb2drv"])
-    st = {"obligations": len(theorems), "discharged": 0, "build_ok": ok, "failed": [], "axioms": {}, "notes": []}
+    st = {"obligations": len(theorems), "discharged": 0, "build_ok": ok, "failed": [], "axioms": {}, "notes": [], "source_facts": src}
     if not ok:
         st["failed"] = theorems
         st["notes"].append("lake build failed:\n" + out[-3000:])
